@@ -280,6 +280,13 @@ func (s *Server) manifestPut(repoStr, arg string) http.HandlerFunc {
 		if mt == "" {
 			mt = types.MediaTypeDetect(mRaw)
 		}
+		// an image manifest sent as an index (or the reverse) would skip the validation of its references
+		if !types.MediaTypeMatchesContent(mt, mRaw) {
+			w.WriteHeader(http.StatusBadRequest)
+			_ = types.ErrRespJSON(w, types.ErrInfoManifestInvalid("manifest content does not match media type: "+mt))
+			s.log.Debug("manifest content does not match media type", "repo", repoStr, "arg", arg, "mediaType", mt)
+			return
+		}
 		// parse and validate image or index contents
 		var subject digest.Digest
 		var referrer *types.Descriptor
